@@ -6,10 +6,14 @@ open PP PP.Sexp PP.ActionGate
 /-!
 `gate <expr> "<input>" <do_actions T|F>`  ↦  `(<result> ((id loc) …))`
 
-  expr ::= (lit "c") | (act ((id kind)…) T|F expr) | (hist (op…) expr) | (seq e e) | (alt e e) | (or e…) | (each e…)
+  expr ::= (lit "c") | (act ((id kind)…) T|F expr) | (hist (op…) expr) | (dbg <mode> expr) | (seq e e) | (alt e e) | (or e…) | (each e…)
          | (skipto e <e|none> T|F) | (many e <e|none>) | (star e <e|none>) | (opt e) | (fb e) | (not e)
   kind ::= keep | fail | fatal | err
   op   ::= (set ((id kind)…) kw) | (add ((id kind)…) kw) | (cond ((id kind)…) kw) | clear | copy      kw ::= none | T | F
+
+`pnc "<s>" "<c>" ((id kind)…) cdt debug failAction mayIndexError loc da cp`  ↦  `(<result> (ev…))`   one `_parseNoCache`
+  call of `Literal(c)` (PP.ActionGate.parseNoCache, both branches);  ev ::= (a id loc) | (try loc) | (match start end)
+  | (dfail loc) | (fact loc)
 
 `ops (op…)`  ↦  `(((id…) cdt) …)`   the configuration (ids in parseAction, callDuringTry) after every prefix
 -/
@@ -52,6 +56,9 @@ def exprOf : Nat → Sexp → Option E
     | .list [.atom "lit", .str c] => match c.toList with | [ch] => some (.lit ch) | _ => none
     | .list [.atom "act", .list as, cdt, e] => do
         pure (.act (← as.mapM actOf) (← cdt.bool?) (← exprOf f e))
+    -- set_debug / set_debug_actions / set_fail_action on the element: the same function up to the debug callbacks
+    -- (PP.ActionGate.debug_branch_agrees); the callbacks are not part of the gate trace
+    | .list [.atom "dbg", _, e] => exprOf f e
     | .list [.atom "hist", .list ops, e] => do
         pure (E.ofHist (← ops.mapM opOf) (← exprOf f e))
     | .list [.atom "seq", a, b] => do pure (.seq (← exprOf f a) (← exprOf f b))
@@ -78,6 +85,26 @@ def actionGateHandle : List Sexp → Option Sexp
       let e ← exprOf 64 x
       let r := parse s.toList 64 e 0 (← da.bool?) true
       pure (.list [rSexp r.1, .list (r.2.map fun ev => .list [ofNat ev.1, ofNat ev.2])])
+  | [.atom "pnc", .str s, .str c, .list as, cdt, dbg, fa, mie, loc, da, cp] => do
+      let cs := s.toList
+      let ch ← match c.toList with | [ch] => some ch | _ => none
+      let d ← dbg.bool?
+      let x : DElem :=
+        { pre := skipWs cs, callPre := true, mayIndexError := (← mie.bool?),
+          impl := fun p _ => if cs[p]? == some ch then .ok (p + 1) 0 else .fail,
+          acts := (← as.mapM actOf), cdt := (← cdt.bool?), debug := d, dTry := d, dMatch := d, dFail := d,
+          failAction := (← fa.bool?) }
+      let r := parseNoCache cs.length x (← loc.nat?) (← da.bool?) (← cp.bool?)
+      let rs : Sexp := match r.1 with
+        | .ok l _ => .list [.atom "ok", ofNat l]
+        | .fail => .atom "fail" | .fatal => .atom "fatal" | .err => .atom "err"
+      let evs := r.2.map fun ev => match ev with
+        | .act i l => Sexp.list [.atom "a", ofNat i, ofNat l]
+        | .dbgTry l => .list [.atom "try", ofNat l]
+        | .dbgMatch a b => .list [.atom "match", ofNat a, ofNat b]
+        | .dbgFail l => .list [.atom "dfail", ofNat l]
+        | .failAct l => .list [.atom "fact", ofNat l]
+      pure (.list [rs, .list evs])
   | [.atom "ops", .list ops] => do
       pure (.list (opsTrace .init (← ops.mapM opOf)))
   | _ => none
